@@ -10,9 +10,12 @@ import (
 	"errors"
 	"fmt"
 	"io"
+	"log"
 	"mime"
+	"mime/multipart"
 	"net"
 	"net/http"
+	"net/http/httptest"
 	"os"
 	"runtime"
 	"strings"
@@ -36,6 +39,7 @@ func init() {
 		Rule: "enumeration of fault placements around Submit: (presend) parameter-writer / auth-writer / unparsable URL / invalid method / no-producer / failing-producer / directory-as-file errors after upload sources were handed over, and requests that build but cannot be sent (scheme lists of the Runtime or the operation that do not end on http/https, no host, a host that is no host name; a real http.Transport over a dialer that makes no connection; also through the operation's client, with Debug on) (instrumented sources, sources with a declared type, a real temporary file, multipart documents of plain form fields only); (upload) read error at every byte offset of file and stream sources of every length 0..L, sources whose Close errs; " +
 			"(roundtrip) scripted RoundTripper failing before/after consuming the request body, and scripted response bodies x reader behaviours (reads all / half / nothing / fails / closes the body itself / moves the body with io.Copy, the byte-stream consumer or a ReadFrom destination into a destination that refuses part-way) x response Content-Types (usable, absent, no consumer, not parsable) x connection reuse (enabled before the first call, with a configured client, with a client that has no transport, after a first call, through the operation's own client); " +
 			"(server) a raw loopback TCP server that closes, resets, stalls or truncates at every byte offset of a canned response (Content-Length and chunked), or accepts and never reads a 16 MiB upload, x deadline source (request timeout, context from the operation or from Runtime.Context or none, both) x the Runtime's or the operation's client; quick tier: every offset x action, reuse by offset parity except at structural offsets, one deadline source per stall offset (documented in enumerate); " +
+			"(reuse) consecutive calls of one Runtime over a real http.Transport with keep-alive connections to a loopback net/http server that sends the head of a large body and holds the rest until the response reader has returned, x reader behaviours that return early x deadline source (request timeout, context, both, cancel-only, none: all an hour away) x Content-Length/chunked x the ways of enabling reuse: judged on what the transport's own body (wrapped below the library's wrapper) had seen at its first Close; " +
 			"(cancel) context cancelled at each hook point of Submit, also against a server that holds its answer while the call has no timeout; (drain) every Read-size sequence, optionally followed by an io.Copy into a failing destination, then Close on the connection-reuse body wrapper. Monitors: close counters on every source and response body, bytes left unread at Close, what the reader was shown (bytes, error), goroutine census on client frames (before/after, settle loop on goroutine states), what the fault point actually delivered, Submit's error. " +
 			"non-trivial = a case whose fault was confirmed to have fired where scripted; distinct by (kind, fault, offset, payload, reuse, deadline source, reader, configuration)",
 		Assumptions: []string{
@@ -61,7 +65,7 @@ func init() {
 
 // Case is one fault placement.
 type Case struct {
-	Kind    string `json:"kind"` // presend | upload | roundtrip | server | cancel | drain
+	Kind    string `json:"kind"` // presend | upload | roundtrip | server | cancel | drain | reuse
 	Payload string `json:"payload,omitempty"`
 	Fault   string `json:"fault,omitempty"`
 	Offset  int    `json:"offset,omitempty"`
@@ -116,11 +120,30 @@ type Case struct {
 	// the operation
 	RtSchemes []string `json:"runtimeSchemes,omitempty"`
 	OpSchemes []string `json:"operationSchemes,omitempty"`
+	// SrcErr (upload kind): the error VALUE the failing upload source answers with, by name (see sourceErrors);
+	// "" = the harness's own errInjected
+	SrcErr string `json:"sourceError,omitempty"`
+	// Calls, RespHead (reuse kind): the number of consecutive calls on one Runtime over one real http.Transport, and
+	// the number of body bytes the server sends before it waits for the response reader of the call to have returned
+	Calls    int `json:"calls,omitempty"`
+	RespHead int `json:"respHead,omitempty"`
 }
 
 func (c *Case) key() string {
 	return fmt.Sprintf("%s|%s|%s|%d|%d|%d|%v|%s|%s|%v|%s|%v|%v|%d", c.Kind, c.Payload, c.Fault, c.Offset, c.Len, c.Chunk, c.Reuse, c.Deadline, c.Reader, c.Chunked, c.HookPoint, c.Sizes, c.EOFWith, c.Perturb) + "|" + c.ReuseVia + fmt.Sprintf("|%d|%s|%v|%d|%d|%v|%d|%v|%v", c.RespLen, c.RespCT, c.CloseFails, c.FaultSrc, c.RespStatus, c.RespKnownLen, c.RespFailAt, c.Debug, c.AuthGetBody) +
-		fmt.Sprintf("|%v|%s|%d|%d|%v", c.OpClient, c.CtxVia, c.WriteFailAt, c.CopyFailAt, c.ServerHolds) + c.schemesKey()
+		fmt.Sprintf("|%v|%s|%d|%d|%v", c.OpClient, c.CtxVia, c.WriteFailAt, c.CopyFailAt, c.ServerHolds) + c.schemesKey() + c.laterKey()
+}
+
+// laterKey: empty for the cases without the fields added later (the keys of older cases keep their form).
+func (c *Case) laterKey() string {
+	k := ""
+	if c.SrcErr != "" {
+		k += "|srcerr=" + c.SrcErr
+	}
+	if c.Calls != 0 || c.RespHead != 0 {
+		k += fmt.Sprintf("|calls=%d|head=%d", c.Calls, c.RespHead)
+	}
+	return k
 }
 
 // schemesKey: empty for the cases without scheme lists of their own (the keys of older cases keep their form).
@@ -244,8 +267,52 @@ type source struct {
 	closed     int32
 	readsAfter int32
 	closeErr   bool
+	failErr    error // what a read at the fault offset answers (nil: errInjected)
 	mu         sync.Mutex
 }
+
+// timeoutErr is a net.Error that says it is a time-out (what a read deadline on a socket-backed source gives).
+type timeoutErr struct{}
+
+func (timeoutErr) Error() string   { return "c12: i/o timeout of the upload source" }
+func (timeoutErr) Timeout() bool   { return true }
+func (timeoutErr) Temporary() bool { return true }
+
+// sourceErrors: the error values a failing upload source answers with. Whatever the value, a Read that returns an
+// error other than io.EOF itself ("Read must return EOF itself, not an error wrapping EOF") is a source that failed:
+// sentinels that other layers of the exchange use for their own purposes (closed pipe, unexpected EOF, cancellation,
+// time-outs, short write, closed file or connection), wrapped or bare, and errors that merely mention EOF.
+var sourceErrors = map[string]error{
+	"closed-pipe":           io.ErrClosedPipe,
+	"wrapped-closed-pipe":   fmt.Errorf("export stream given up: %w", io.ErrClosedPipe),
+	"unexpected-eof":        io.ErrUnexpectedEOF,
+	"wrapped-unexpected":    fmt.Errorf("archive member cut short: %w", io.ErrUnexpectedEOF),
+	"wrapped-eof":           fmt.Errorf("decrypting source: %w", io.EOF),
+	"eof-in-text-only":      errors.New("EOF"),
+	"context-canceled":      context.Canceled,
+	"context-deadline":      context.DeadlineExceeded,
+	"wrapped-canceled":      fmt.Errorf("producer stopped: %w", context.Canceled),
+	"os-deadline":           os.ErrDeadlineExceeded,
+	"net-timeout":           &net.OpError{Op: "read", Net: "tcp", Err: timeoutErr{}},
+	"short-write":           io.ErrShortWrite,
+	"short-buffer":          io.ErrShortBuffer,
+	"no-progress":           io.ErrNoProgress,
+	"net-closed":            net.ErrClosed,
+	"os-closed":             os.ErrClosed,
+	"path-error-not-exist":  &os.PathError{Op: "read", Path: "dir/f1.bin", Err: os.ErrNotExist},
+	"http-body-after-close": http.ErrBodyReadAfterClose,
+	"http-handler-timeout":  http.ErrHandlerTimeout,
+	"http-abort-handler":    http.ErrAbortHandler,
+	"http-server-closed":    http.ErrServerClosed,
+	"http-use-last-resp":    http.ErrUseLastResponse,
+	"http-skip-alt-proto":   http.ErrSkipAltProtocol,
+}
+
+// sourceErrorNames: sourceErrors in a fixed order (the enumeration must not depend on map order).
+var sourceErrorNames = []string{"closed-pipe", "wrapped-closed-pipe", "unexpected-eof", "wrapped-unexpected", "wrapped-eof", "eof-in-text-only",
+	"context-canceled", "context-deadline", "wrapped-canceled", "os-deadline", "net-timeout", "short-write", "short-buffer", "no-progress",
+	"net-closed", "os-closed", "path-error-not-exist", "http-body-after-close", "http-handler-timeout", "http-abort-handler", "http-server-closed",
+	"http-use-last-resp", "http-skip-alt-proto"}
 
 func newSource(name string, n, failAt, chunk int) *source {
 	return &source{name: name, data: pattern(n), failAt: failAt, chunk: chunk}
@@ -302,6 +369,9 @@ func (s *source) Read(p []byte) (int, error) {
 	}
 	if s.pos >= limit {
 		if s.failAt >= 0 && s.pos >= s.failAt {
+			if s.failErr != nil {
+				return 0, s.failErr
+			}
 			return 0, errInjected
 		}
 		return 0, io.EOF
@@ -656,6 +726,10 @@ func (h *harness) params(c *Case, timeout time.Duration, failWriter bool) rt.Cli
 		}
 		for _, src := range h.sources {
 			src.closeErr = c.CloseFails
+			src.failErr = sourceErrors[c.SrcErr]
+		}
+		if h.stream != nil {
+			h.stream.failErr = sourceErrors[c.SrcErr]
 		}
 		if failWriter {
 			return errInjected
@@ -811,7 +885,7 @@ func runCase(m *mon.M, c *Case) {
 		m.Note("wall_us_kind_"+c.Kind, int64(time.Since(t0)/time.Microsecond))
 		m.Note("cases_kind_"+c.Kind, 1)
 	}()
-	if c.Perturb > 0 && c.Kind != "cancel" && c.Kind != "drain" {
+	if c.Perturb > 0 && c.Kind != "cancel" && c.Kind != "drain" && c.Kind != "reuse" {
 		var mu sync.Mutex
 		state := uint64(c.Perturb)*2654435761 + 12345
 		verifhook.Set(func(string) {
@@ -843,6 +917,8 @@ func runCase(m *mon.M, c *Case) {
 		runCancel(m, c)
 	case "drain":
 		runDrain(m, c)
+	case "reuse":
+		runReuse(m, c)
 	}
 }
 
@@ -1014,8 +1090,26 @@ func runUpload(m *mon.M, c *Case) {
 	defer h.osfilesClosed()
 	before := census()
 	srt := &scriptedRT{mode: "ok", body: &respBody{data: []byte(`{"ok":1}`)}}
-	r := client.New("example.invalid", "/api", []string{"http"})
-	r.Transport = srt
+	var tr http.RoundTripper = srt
+	host := "example.invalid"
+	realTr := c.Fault == "real-transport"
+	if realTr {
+		// the same placements through a real http.Transport to a loopback server that answers 200 once it has read a
+		// request body to its (well-formed) end
+		us, err := startUploadServer()
+		if err != nil {
+			m.Class("listen-failed")
+			return
+		}
+		defer us.Close()
+		rtr := &http.Transport{DisableKeepAlives: !c.Reuse}
+		defer rtr.CloseIdleConnections()
+		tr, host = rtr, us.Listener.Addr().String()
+		h.quiescent = false
+		before = census()
+	}
+	r := client.New(host, "/api", []string{"http"})
+	r.Transport = tr
 	if c.Reuse {
 		r.EnableConnectionReuse()
 	}
@@ -1030,6 +1124,14 @@ func runUpload(m *mon.M, c *Case) {
 	feat := c.Payload
 	if c.Fault != "" {
 		feat += "+" + c.Fault
+	}
+	if c.SrcErr != "" {
+		if sourceErrors[c.SrcErr] == nil {
+			m.Class("harness-unknown-source-error-name-inconclusive")
+			return
+		}
+		feat += "/source-error-" + c.SrcErr
+		m.Class("source-error-value:" + c.SrcErr)
 	}
 	if !o.returned {
 		m.Violate("upload/did-not-return/"+feat, "Submit did not return; case "+c.key()+"\n"+o.dump, c)
@@ -1055,6 +1157,10 @@ func runUpload(m *mon.M, c *Case) {
 		// every byte was delivered and only Close of the stream reported an error: whether that fails the call is
 		// outside the statement (return, goroutines and no panic are judged as everywhere)
 		m.Class("stream-close-error-outcome-not-judged")
+	} else if !faulty && o.err != nil && realTr {
+		// a healthy upload over the loopback that failed (the short deadline of the case on a loaded machine, no
+		// connection): the scripted-transport placements judge healthy uploads
+		m.Class("real-transport-healthy-upload-failed-inconclusive")
 	} else if !faulty && o.err != nil {
 		m.Violate("upload/healthy-source-failed/"+feat, fmt.Sprintf("no fault scripted but Submit failed: %v; case %s", o.err, c.key()), c)
 		return
@@ -1062,6 +1168,38 @@ func runUpload(m *mon.M, c *Case) {
 	if checkReleased(m, c, h, before, "upload/"+feat) {
 		m.Class("upload-ok")
 	}
+}
+
+// startUploadServer: a loopback net/http server that reads the request body and answers 200 when it came to a
+// well-formed end, 400 when it did not.
+func startUploadServer() (*httptest.Server, error) {
+	ln, err := net.Listen("tcp", "127.0.0.1:0")
+	if err != nil {
+		return nil, err
+	}
+	us := &httptest.Server{Listener: ln, Config: &http.Server{ErrorLog: log.New(io.Discard, "", 0), Handler: http.HandlerFunc(func(w http.ResponseWriter, r *http.Request) {
+		var err error
+		if mr, merr := r.MultipartReader(); merr == nil {
+			for err == nil {
+				var p *multipart.Part
+				if p, err = mr.NextPart(); err == nil {
+					_, err = io.Copy(io.Discard, p)
+				}
+			}
+			if err == io.EOF {
+				err = nil
+			}
+		} else {
+			_, err = io.Copy(io.Discard, r.Body)
+		}
+		w.Header().Set("Content-Type", "application/json")
+		if err != nil {
+			w.WriteHeader(http.StatusBadRequest)
+		}
+		_, _ = w.Write([]byte(`{"ok":1}`))
+	})}}
+	us.Start()
+	return us, nil
 }
 
 func runRoundtrip(m *mon.M, c *Case) {
@@ -1728,6 +1866,52 @@ func enumerate(m *mon.M) []*Case {
 			cs = append(cs, &Case{Kind: "upload", Payload: p, Len: l, Offset: l / 2, Fault: "with-getbody-auth", Reader: "all"})
 		}
 	}
+	// the error VALUE of the failing source: the sentinels that the layers of the exchange use for their own purposes
+	// (closed pipe, unexpected EOF, cancellation, time-outs, short write, closed file or connection...), bare and
+	// wrapped, at offsets before / inside / on the edge of / beyond the 512-byte sniffing window and at the very end,
+	// for sources that are sniffed, sources with a declared type, second sources and body streams
+	{
+		type lo struct{ l, off int }
+		los := []lo{{0, 0}, {7, 3}, {600, 0}, {600, 1}, {600, 511}, {600, 512}, {600, 513}, {600, 600}}
+		pls := []string{"file", "typed-file", "files+fields", "reader"}
+		if !quick {
+			los = append(los, lo{1, 0}, lo{1, 1}, lo{7, 0}, lo{7, 7}, lo{600, 100}, lo{600, 599}, lo{512, 512}, lo{4096, 4096}, lo{70000, 4096}, lo{70000, 69999}, lo{70000, 70000})
+			pls = append(pls, "readcloser", "files-2-fields", "file-replaced")
+		}
+		for ei, en := range sourceErrorNames {
+			for _, p := range pls {
+				for li, x := range los {
+					c := &Case{Kind: "upload", Payload: p, Len: x.l, Offset: x.off, Reader: "all", SrcErr: en, Chunk: (ei + li) % 2, Reuse: li%4 == 3}
+					if p == "files+fields" || p == "files-2-fields" {
+						c.FaultSrc = li % 2
+					}
+					cs = append(cs, c)
+				}
+			}
+			// through a real http.Transport to a loopback server (the transport's own handling of a failing request body)
+			for _, p := range []string{"file", "reader", "files+fields"} {
+				if quick && p == "files+fields" {
+					continue
+				}
+				for oi, off := range []int{0, 100, 550, 600} {
+					if quick && oi%2 != ei%2 {
+						continue
+					}
+					cs = append(cs, &Case{Kind: "upload", Payload: p, Len: 600, Offset: off, Fault: "real-transport", Reader: "all", SrcErr: en, Reuse: oi%2 == 0})
+				}
+			}
+			// with an auth writer that copies the body first (GetBody), and with Runtime.Debug on (the request dump reads it)
+			cs = append(cs, &Case{Kind: "upload", Payload: "file", Len: 600, Offset: 300, Fault: "with-getbody-auth", Reader: "all", SrcErr: en})
+			cs = append(cs, &Case{Kind: "upload", Payload: "file", Len: 600, Offset: 550, Reader: "all", SrcErr: en, Debug: true})
+		}
+	}
+	for _, p := range []string{"file", "reader", "files+fields", "typed-file"} {
+		for _, off := range []int{-1, 0, 100, 550, 600} {
+			for _, reuse := range []bool{false, true} {
+				cs = append(cs, &Case{Kind: "upload", Payload: p, Len: 600, Offset: off, Fault: "real-transport", Reader: "all", Reuse: reuse})
+			}
+		}
+	}
 	// a source with a declared media type is copied without the 512-byte sniff: the sweep enters io.Copy at offset 0
 	for _, l := range []int{0, 1, 7, 600} {
 		offs := map[int]bool{-1: true, 0: true, 1: true, l / 2: true, l - 1: true, l: true}
@@ -2046,6 +2230,66 @@ func enumerate(m *mon.M) []*Case {
 				}
 			}
 		}
+	}
+	// consecutive calls over a real http.Transport with keep-alive connections: a reader that returns before the end
+	// of a body whose rest is still outstanding on the network (the server holds it until the reader has returned);
+	// under connection reuse the transport's body must have been read to its end when it is closed. Crossed with the
+	// source of the call's deadline (none of them is meant to be hit), the framing of the answer, the size of what
+	// is outstanding, the ways of switching reuse on, and the payload kind of the request
+	{
+		rds := []string{"none", "half", "err", "copy-fail", "half+close", "all"}
+		dls := []string{"long-request", "long-context", "long-both", "cancel-only", "no-deadline"}
+		k := 0
+		add := func(c *Case) {
+			c.Kind, c.Len = "reuse", 300
+			if c.Payload == "" {
+				c.Payload = []string{"json", "file", "fields", "reader"}[k%4]
+			}
+			if c.Reader == "copy-fail" {
+				c.WriteFailAt = 100
+			}
+			k++
+			cs = append(cs, c)
+		}
+		for _, rd := range rds {
+			for di, dl := range dls {
+				for _, chunked := range []bool{false, true} {
+					if quick && chunked != (di%2 == 0) && rd != "half" && rd != "none" {
+						continue
+					}
+					add(&Case{Reuse: true, Reader: rd, Deadline: dl, Chunked: chunked, RespLen: 1 << 20, RespHead: 16 << 10, Calls: 2})
+				}
+			}
+		}
+		// what is outstanding: a few KiB beyond the transport's read buffer ... several MiB; the head: a few bytes ... more than any buffer
+		for _, rd := range []string{"none", "half"} {
+			for _, x := range [][2]int{{20000, 10}, {20000, 5000}, {70000, 1}, {300000, 70000}, {4 << 20, 16 << 10}, {1 << 20, 1<<20 - 5000}} {
+				for _, chunked := range []bool{false, true} {
+					if quick && chunked && x[0] > 1<<20 {
+						continue
+					}
+					add(&Case{Reuse: true, Reader: rd, Deadline: dls[k%len(dls)], Chunked: chunked, RespLen: x[0], RespHead: x[1], Calls: 2})
+				}
+			}
+		}
+		// the ways of switching reuse on, the operation's own client, the context handed over through the Runtime, three calls in a row
+		for _, rd := range []string{"none", "half", "err"} {
+			for _, via := range []string{"with-client", "after-first-call", "with-client-nil-transport"} {
+				add(&Case{Reuse: true, ReuseVia: via, Reader: rd, Deadline: dls[k%len(dls)], RespLen: 1 << 20, RespHead: 16 << 10, Calls: 2})
+			}
+			add(&Case{Reuse: true, OpClient: true, Reader: rd, Deadline: "long-request", RespLen: 1 << 20, RespHead: 16 << 10, Calls: 2})
+			add(&Case{Reuse: true, CtxVia: "runtime", Reader: rd, Deadline: "long-context", RespLen: 1 << 20, RespHead: 16 << 10, Calls: 2})
+			add(&Case{Reuse: true, CtxVia: "none", Reader: rd, Deadline: "long-request", RespLen: 1 << 20, RespHead: 16 << 10, Calls: 2})
+			add(&Case{Reuse: true, Reader: rd, Deadline: "long-request", RespLen: 300000, RespHead: 5000, Calls: 3, Chunked: true})
+			if !quick {
+				add(&Case{Reuse: true, OpClient: true, CtxVia: "runtime", Reader: rd, Deadline: "long-both", RespLen: 1 << 20, RespHead: 16 << 10, Calls: 3, Chunked: true})
+			}
+			// reuse off: the body is closed, nothing is owed beyond that
+			add(&Case{Reader: rd, Deadline: "long-request", RespLen: 1 << 20, RespHead: 16 << 10, Calls: 2})
+			add(&Case{Reader: rd, Deadline: "long-context", RespLen: 300000, RespHead: 5000, Calls: 2, Chunked: true})
+		}
+		// Runtime.Debug on: the response dump reads the body before the reader (nothing is held back then)
+		add(&Case{Reuse: true, Reader: "half", Deadline: "long-request", RespLen: 70000, RespHead: 5000, Calls: 2, Debug: true})
 	}
 	// the reuse wrapper alone: a Read sequence, then the rest moved by io.Copy into a destination that fails
 	// part-way (or takes everything), then Close
